@@ -57,8 +57,17 @@ claim('C11', 'exploration', TECH + ': seeded run/reset/copy/reload/failed-run/ab
       'operation and every run from the reset state must reproduce the first run.',
       INV_NOTE, 'DESIGN.md section 4 (C11)')
 
+claim('C04', 'exploration', TECH + ': history check of seeded control schedules in simulated time against a reference control timeline, with restarts placed next to control instants',
+      'Worlds with 1-6 time controls and time rules on 1-3 targets (AT TIME once or repeating, AT CLOCKTIME daily, rules over SYSTEM TIME / CLOCKTIME with =,>=,<=,>,<, '
+      'AND/OR, ELSE, priorities; start_clocktime on/off the hour; instants on the hydraulic grid, on the rule grid only, off both, at 0, at the duration, one second apart, '
+      'around midnight; report ALL or grid) run under the simulator with pause/persist/restart next to the instants, rescued solver faults and evaluator-order perturbation. '
+      'At every accepted step the commanded status/setting of every target must equal the reference timeline, and with report ALL every instant at which the reference '
+      'changes a target must be a reported row.',
+      INV_NOTE + ' The reference timeline encodes the semantics the statement spells out (and EPANET 2.2 implements); rule timesteps divide the hydraulic timestep.',
+      'DESIGN.md section 4 (C04)')
+
 _PENDING = 'check not built yet in this session (planned, see DESIGN.md section 11); not claimed until it runs clean'
-for _p in ['C03', 'C04', 'C05', 'C12', 'C13', 'C14', 'C15']:
+for _p in ['C03', 'C05', 'C12', 'C13', 'C14', 'C15']:
     NOT_APPLICABLE[_p] = _PENDING
 NOT_APPLICABLE['C17'] = 'pure total functions of (value, unit, parameter): no state, clock, I/O or failure mode for a schedule or fault to act on; deterministic simulation has nothing to vary (DESIGN.md section 7)'
 NOT_APPLICABLE['C18'] = 'pure function of (graph, valve layer) returning a labelling: nothing evolves, fails or persists (DESIGN.md section 7)'
